@@ -488,3 +488,48 @@ UNITS += [
     dfas_unit('uint32_t', 'using T = uint32_t;', 0, 0, 'arithmetic arguments are stored by value and cannot carry a non-printable byte'),
     dfas_unit('double', 'using T = double;', 0, 0, 'arithmetic arguments are stored by value and cannot carry a non-printable byte'),
 ]
+
+# ------------------------------------------------------------------------------------------ Codec<utility::StringRef>
+SRH = 'quill/StringRef.h'
+SR_RE = r'struct\s+Codec<utility::StringRef>'
+SR_PRE = r'''
+#define BUFSZ 32
+typedef struct SV { char const* d; size_t n; } SV;                         /* std::string_view */
+typedef struct StringRef { SV _str_view; } StringRef;
+static inline SV const* SR_get_string_view(StringRef const* r) { return &r->_str_view; }
+static inline char const* SV_data(SV const* v) { return v->d; }
+static inline size_t SV_size(SV const* v) { return v->n; }
+static inline SV SV_make(char const* p, size_t n) { SV v; v.d = p; v.n = n; return v; }
+'''
+SR_RULES = [(r'std::byte\{([^{}]*)\}', r'((unsigned char)(\1))', '?'), (r'\bbuffer\b', '(*buffer_p)', '?'),
+            (r'no_copy\.get_string_view\(\)\.data\(\)', 'SV_data(SR_get_string_view(no_copy_p))', '?'), (r'no_copy\.get_string_view\(\)\.size\(\)', 'SV_size(SR_get_string_view(no_copy_p))', '?'),
+            (r'std::string_view\{data, size\}', 'SV_make(data, size)', '?')]
+stringref_funcs = [
+    dict(src=dict(header=SRH, cls='Codec', cls_re=SR_RE, name='compute_encoded_size'), cfun='CDS_compute_encoded_size', sig='size_t CDS_compute_encoded_size(void)', pre_rules=SR_RULES),
+    dict(src=dict(header=SRH, cls='Codec', cls_re=SR_RE, name='encode'), cfun='CDS_encode', sig='void CDS_encode(unsigned char** buffer_p, StringRef const* no_copy_p)', pre_rules=SR_RULES),
+    dict(src=dict(header=SRH, cls='Codec', cls_re=SR_RE, name='decode_arg'), src_params=['buffer'], cfun='CDS_decode_arg', sig='SV CDS_decode_arg(unsigned char** buffer_p)', pre_rules=SR_RULES),
+    dict(cfun='lem_roundtrip', text=r'''
+void lem_roundtrip(void)
+__CPROVER_assigns()
+__CPROVER_ensures(1 == 1)
+{
+  static unsigned char buf[BUFSZ];
+  StringRef argv; char const* nondet_ptr(void); size_t nondet_size(void); argv._str_view.d = nondet_ptr(); argv._str_view.n = nondet_size();
+  size_t const size = CDS_compute_encoded_size();
+  __CPROVER_assert(size <= BUFSZ, "harness: the record fits the scratch buffer");
+  unsigned char* w = buf;
+  CDS_encode(&w, &argv);
+  __CPROVER_assert((size_t)(w - buf) == size, "C04: bytes written by encode == bytes reserved by the size pass");
+  unsigned char* r = buf;
+  SV d = CDS_decode_arg(&r);
+  __CPROVER_assert(r == w, "C04: bytes consumed by decode == bytes written by encode");
+  __CPROVER_assert(d.d == argv._str_view.d && d.n == argv._str_view.n, "C04: a StringRef is handed to the backend as the very same (pointer, length) view - no copy, by its documented design");
+}
+''')]
+stringref = dict(
+    name='CD.roundtrip[utility::StringRef]', primary='C04', props={'C04'}, kind='L',
+    desc='Codec<utility::StringRef>: (pointer, length) round trip over the real bodies; reserved == written == consumed',
+    structs=[], prelude=SR_PRE, enforce='lem_roundtrip', replace=[], funcs=stringref_funcs, harness='  lem_roundtrip();',
+    dropped=['reference parameters as pointers', 'std::string_view as (pointer, length)', 'the unused size-cache parameters', 'decode_and_store_arg (fmt argument store: unit DFAS.push_back[std::string_view])'],
+    trusted=['memcpy (CBMC built-in)'], min_obligations=5)
+UNITS += [stringref]
